@@ -20,7 +20,7 @@ ASSUMPTIONS = ['intermediate levels never contain order-0 edges (no cut bond has
 
 def budget(tier):
     if tier == 'thorough':
-        return dict(examples=600, shards=16, procs=16)
+        return dict(examples=2500, shards=16, procs=16)
     return dict(examples=700, shards=4, procs=4)
 
 
